@@ -96,6 +96,37 @@ put_words(const uint8_t *b, size_t n, int tokens)
 		i++;
 	}
 }
+// value of a token "[P<i>]", "[R<n>]", "[R<n>+k]" or "[R<n>-k]" (s points at '['): an id relative to a request id
+// seen on the wire names an id the peer has NOT seen -- ids are consecutive, hence predictable (the id of a request
+// that was abandoned before it was transmitted, or that is still queued).  *arith is set for the +/- forms, *known
+// when the base exists.  An unknown base gives 0 in every form.
+static uint32_t
+tok_value(const char *s, int *arith, int *known, int *base, long *off)
+{
+	char    *e;
+	long     k = strtol(s + 2, &e, 10);
+	uint32_t v = 0;
+	*arith = 0;
+	*off   = 0;
+	*base  = (int) k;
+	*known = 0;
+	if (s[1] == 'P') {
+		if (k >= 0 && k < vt_npipes) {
+			v      = vt_pipe_ids[k];
+			*known = 1;
+		}
+	} else if (s[1] == 'R') {
+		if (*e == '+' || *e == '-') {
+			*arith = 1;
+			*off   = strtol(e, NULL, 10);
+		}
+		if (k >= 0 && k < nrids) {
+			v      = rids[k] + (uint32_t) *off;
+			*known = 1;
+		}
+	}
+	return v;
+}
 // hex with tokens -> bytes
 static uint8_t *
 untok(const char *s, size_t *len)
@@ -108,10 +139,9 @@ untok(const char *s, size_t *len)
 	}
 	while (*s) {
 		if (*s == '[') {
-			uint32_t v = 0;
-			int      k = atoi(s + 2);
-			if (s[1] == 'P') v = (k < vt_npipes) ? vt_pipe_ids[k] : 0;
-			if (s[1] == 'R') v = (k < nrids) ? rids[k] : 0;
+			int      ar, kn, bs;
+			long     off;
+			uint32_t v = tok_value(s, &ar, &kn, &bs, &off);
 			NNI_PUT32(b + n, v);
 			n += 4;
 			while (*s && *s != ']') s++;
@@ -123,6 +153,42 @@ untok(const char *s, size_t *len)
 	}
 	*len = n;
 	return b;
+}
+// canonical spelling of a tokenised hex string: a relative token whose value is a request id already seen on the
+// wire is spelt [R<m>]; one that names no seen id keeps its relative spelling; an unknown base is 00000000.
+// Returns 1 if the string contained a relative token (only then is the spelling reported).
+static int
+canon_tok(const char *s, char *out, size_t cap)
+{
+	size_t n   = 0;
+	int    any = 0;
+	out[0]     = 0;
+	while (*s && n + 24 < cap) {
+		if (*s == '[') {
+			int      ar, kn, bs;
+			long     off;
+			uint32_t v = tok_value(s, &ar, &kn, &bs, &off);
+			if (ar) {
+				int r = kn ? rid_index(v, 0) : -1;
+				any   = 1;
+				if (!kn)
+					n += (size_t) snprintf(out + n, cap - n, "00000000");
+				else if (r >= 0)
+					n += (size_t) snprintf(out + n, cap - n, "[R%d]", r);
+				else
+					n += (size_t) snprintf(out + n, cap - n, "[R%d%+ld]", bs, off);
+				while (*s && *s != ']') s++;
+				if (*s) s++;
+			} else {
+				while (*s && *s != ']') out[n++] = *s++;
+				if (*s) out[n++] = *s++;
+			}
+		} else {
+			out[n++] = *s++;
+		}
+	}
+	out[n] = 0;
+	return any;
 }
 
 static void
@@ -199,7 +265,9 @@ observe(int rv, const char *extra)
 				    nng_msg_header_len(m) == 4) {
 					uint32_t v;
 					NNI_GET32((uint8_t *) nng_msg_header(m), v);
-					rid_index(v, 1);
+					// request / survey ids have the high bit set; anything else in
+					// that place is not an id and is shown as it is
+					if (v & 0x80000000u) rid_index(v, 1);
 				}
 			}
 			print_msg(m);
@@ -299,7 +367,7 @@ main(void)
 		if (nt == 0 || tok[0][0] == '#') continue;
 		const char *op = tok[0];
 		int         rv = 0;
-		char        extra[128];
+		char        extra[1024];
 		extra[0] = 0;
 		if (strcmp(op, "mark") == 0) {
 			reset_all();
@@ -354,6 +422,11 @@ main(void)
 			uint8_t *d = untok(tok[2], &len);
 			rv         = vt_inject(IDX(tok[1]), d, len) == 0 ? 0 : NNG_ENOENT;
 			free(d);
+			// a relative id token: say which id it was (see canon_tok)
+			if (rv == 0) {
+				memcpy(extra, "inj=", 4);
+				if (!canon_tok(tok[2], extra + 4, sizeof(extra) - 4)) extra[0] = 0;
+			}
 		} else if (strcmp(op, "drop") == 0) {
 			rv = vt_drop(IDX(tok[1])) == 0 ? 0 : NNG_ENOENT;
 		} else if (strcmp(op, "send") == 0 || strcmp(op, "sendnb") == 0) {
